@@ -70,7 +70,7 @@ def judge(op, impl, model, spec):
     w = op.split(" ")
     if impl in ("panic", "bad-op") or impl.startswith("crash"):
         return "violation"
-    maxlen, vs, script = int(w[1]), F.parse_vals(w[2]), F.parse_script(w[3])
+    maxlen, vs, script = F.ml(w[1]), F.parse_vals(w[2]), F.parse_script(w[3])
     acts = [] if w[4] == "-" else w[4].split(",")
     iw = impl.split(" ")
     toks = iw[0].split(",") if acts else []
@@ -347,6 +347,8 @@ def streams(rng, tier):
         mk("error-events", error_ops(rng, tier), "one Other / Interrupted / accept-0 event at every position, then sync; oracle: one error result, exact frames"),
         mk("rejected-values", reject_ops(rng, tier), "encode failures and over-long values between good ones, idle syncs; oracle: they add nothing"),
         mk("random-walks", random_ops(rng, tier), "seeded random disciplined walks judged by the oracle; undisciplined ones against the model"),
+        mk("default-limit", [f"awrite d {F.vals_tok([v, ('u', 5)])} {F.script_tok([99999999] * 4)} w0,w1 #k=rand" for v in F.default_limit_vals()],
+           "values whose payload is 524285..524289 bytes through a writer whose limit was never set: 524288 is the last one accepted"),
         mk("big-frames", big_ops(rng, tier), "values of 65537..100005 bytes through one writer in 20 KB..1 MB pieces with Pendings, error events and drop-then-sync; oracle: exact frames, lengths"),
         mk("set-max-len", setmax_ops(rng, tier), "write accepted, part of the frame out, Pending, future dropped, set_max_len(smaller), sync: the frame in flight is completed unchanged; the new limit applies to later values"),
         mk("long-streams", long_ops(rng, tier), "31..300 values through one writer under chunking, Pendings, error events and drop-then-sync; oracle: exact frames, lengths"),
